@@ -59,6 +59,7 @@ int main(int argc, char** argv) {
                 if (quietKey) { u.from = 0; u.to = 0; u.promo = 0; }
                 u.score = rnd.nextInt(20000) - 10000;        // non-mate scores: no ply shift involved
                 u.depth = rnd.nextInt(300);
+                if (rnd.nextInt(8) == 0) u.depth = -1 - rnd.nextInt(7);      // quiescence-node stores carry a negative remaining depth
                 u.type = 1 + rnd.nextInt(3);
                 u.eval = rnd.nextInt(30000) - 15000;
                 cat.push_back(u);
